@@ -152,6 +152,26 @@ func (g *gen) name(prefix string) string {
 	return fmt.Sprintf("%s%d", prefix, g.n)
 }
 
+// newPreflightStage: preflight stages may not have outputs.
+func (g *gen) newPreflightStage() *GCallable {
+	st := &GCallable{Name: g.name("PRE"), IsStage: true}
+	st.Ins = []GParam{{"i0", GTy{Base: []string{"int", "string", "bool"}[g.rng.Intn(3)]}}}
+	if g.rng.Intn(2) == 0 {
+		st.Ins = append(st.Ins, GParam{"i1", GTy{Base: "int", Dim: 1}})
+	}
+	g.stages = append(g.stages, st)
+	return st
+}
+
+// newFlagsStage produces run-time boolean flags (disabled conditions, per-fork flags).
+func (g *gen) newFlagsStage() *GCallable {
+	st := &GCallable{Name: g.name("FLAGS"), IsStage: true}
+	st.Ins = []GParam{{"i0", GTy{Base: "int"}}}
+	st.Outs = []GParam{{"flag", GTy{Base: "bool"}}, {"flags", GTy{Base: "bool", Dim: 1}}, {"n", GTy{Base: "int", Dim: 1}}}
+	g.stages = append(g.stages, st)
+	return st
+}
+
 func (g *gen) newStage() *GCallable {
 	st := &GCallable{Name: g.name("ST"), IsStage: true}
 	nin := 1 + g.rng.Intn(3)
@@ -413,9 +433,31 @@ func (g *gen) newPipeline(depth int, top bool) *GCallable {
 	var body strings.Builder
 	ncalls := 1 + g.rng.Intn(g.opts.MaxCalls)
 	used := map[string]int{}
+	preDone := false
 	for ci := 0; ci < ncalls; ci++ {
 		var callee *GCallable
-		if depth < g.opts.MaxDepth && g.rng.Intn(3) == 0 {
+		if g.opts.Preflight && !preDone && g.rng.Intn(5) == 0 {
+			// a preflight call: inputs from literals / pipeline inputs only, no outputs
+			preDone = true
+			pre := g.newPreflightStage()
+			var selfOnly []gSource
+			for _, sc := range scope {
+				if strings.HasPrefix(sc.Expr, "self.") {
+					selfOnly = append(selfOnly, sc)
+				}
+			}
+			fmt.Fprintf(&body, "    call %s(\n", pre.Name)
+			for _, in := range pre.Ins {
+				ex, _ := g.findExpr(in.Ty, selfOnly, 2)
+				fmt.Fprintf(&body, "        %s = %s,\n", in.Name, ex)
+			}
+			body.WriteString("    ) using (\n        preflight = true,\n    )\n\n")
+			g.stat("preflight")
+			continue
+		}
+		if g.rng.Intn(9) == 0 {
+			callee = g.newFlagsStage()
+		} else if depth < g.opts.MaxDepth && g.rng.Intn(3) == 0 {
 			callee = g.newPipeline(depth+1, false)
 		} else if len(g.stages) > 0 && g.rng.Intn(3) == 0 {
 			callee = g.stages[g.rng.Intn(len(g.stages))]
@@ -468,9 +510,35 @@ func (g *gen) newPipeline(depth int, top bool) *GCallable {
 			}
 		}
 		var binds []string
+		forcedSplit := ""
 		splitLen := -1
 		var splitKeys []string
 		firstSplitDyn := ""
+		// a mapped sub-pipeline whose disabling flag is split per fork from a run-time collection
+		if !g.opts.NoMap && !g.opts.NoDisable && !callee.IsStage && g.rng.Intn(2) == 0 {
+			for _, in := range callee.Ins {
+				if in.Name == "enable" && in.Ty == (GTy{Base: "bool"}) {
+					var src string
+					for _, sc := range scope {
+						if sc.Dyn && sc.Ty == (GTy{Base: "bool", Dim: 1}) {
+							src = sc.Expr
+						}
+					}
+					if src == "" {
+						fl := g.newFlagsStage()
+						fmt.Fprintf(&body, "    call %s(\n        i0 = %d,\n    )\n\n", fl.Name, g.rng.Intn(9))
+						for _, o := range fl.Outs {
+							scope = append(scope, gSource{Expr: fl.Name + "." + o.Name, Ty: o.Ty, Dyn: true})
+						}
+						src = fl.Name + ".flags"
+					}
+					mode = "array"
+					splitParams = map[string]bool{"enable": true}
+					forcedSplit = src
+					g.stat("split_enable_flag_dynamic")
+				}
+			}
+		}
 		for _, in := range callee.Ins {
 			if splitParams[in.Name] {
 				var ct GTy
@@ -492,6 +560,9 @@ func (g *gen) newPipeline(depth int, top bool) *GCallable {
 					binds = append(binds, fmt.Sprintf("        %s = %s,\n", in.Name, ex2))
 					_ = ex
 					continue
+				} else if forcedSplit != "" && in.Name == "enable" {
+					ex, dyn = forcedSplit, true
+					firstSplitDyn = ex
 				} else {
 					ex, dyn = g.findExpr(ct, scope, 1)
 					if dyn {
@@ -550,10 +621,6 @@ func (g *gen) newPipeline(depth int, top bool) *GCallable {
 				}
 			}
 		}
-		if g.opts.Preflight && top && ci == 0 && mode == "" && g.rng.Intn(3) == 0 && callee.IsStage {
-			mods = append(mods, "        preflight = true,\n")
-			g.stat("preflight")
-		}
 		if callee.IsStage && g.rng.Intn(8) == 0 {
 			mods = append(mods, "        volatile = true,\n")
 		}
@@ -591,6 +658,10 @@ func (g *gen) newPipeline(depth int, top bool) *GCallable {
 	}
 	// outputs
 	nout := 1 + g.rng.Intn(3)
+	if !top && g.opts.Preflight && g.rng.Intn(6) == 0 {
+		nout = 0 // a setup / validation pipeline: return ()
+		g.stat("pipeline_without_outputs")
+	}
 	var ret strings.Builder
 	ret.WriteString("    return (\n")
 	// prefer dynamic sources
